@@ -615,51 +615,53 @@ Section UtlruBridge.
     destruct (foldM _ _ _) as [[s' n']|]; cbn [bind]; destruct (tt_find_range s (map fst l) pk now) as [[s2 os]|]; simpl; auto.
   Qed.
 
-  (* ---- clean_expired_values: the while loop with break against tt_clean_loop (same fuel).  The body of the
-     generated loop is required to equal (up to the reason for UB) the body below, which is how the literal machine
-     reads; g_clean_ok establishes that by case analysis on what the body tests (is the list empty, is the slot in
-     range, has the deadline passed — as a proposition), so it does not matter whether the source writes
-     `if (now >= t) { erase } else { break; }` or `if (now < t) { break; } erase` ---- *)
-  Definition clean_body (now : Z) (s : ttll K V) (n : nat) : res (bool * (ttll K V * nat)) :=
-    do d <- nl_deref (tt_ord s) (nl_begin (tt_ord s));
-    do r <- vref (tt_elems s) d;
-    do e <- vget "m_elements[]" (tt_elems s) r;
-    if (te_expire e <=? now)%Z then (do s1 <- g_do_erase s d; Ok (true, (s1, S n))) else Ok (false, (s, n)).
+  (* ---- clean_expired_values: the while loop against tt_clean_loop (same fuel).  One TURN of the generated loop
+     (condition, then body: whileB_turn) is required to equal, up to the reason for UB, clean_turn below, which is how
+     the literal machine reads; g_clean_ok establishes that by case analysis on what a turn tests (is anything in use,
+     is the list empty, is the slot in range, has the deadline passed — as a proposition), so it does not matter
+     whether the source writes `while (used > 0) { if (now >= t) { erase } else { break; } }`,
+     `if (now < t) { break; } erase`, or folds the test into the condition `while (used > 0 && now >= t) { erase }`,
+     nor whether it counts before or after the erase ---- *)
+  Definition clean_turn (now : Z) (s : ttll K V) (n : nat) : res (bool * (ttll K V * nat)) :=
+    if 0 <? tt_used s then
+      do d <- nl_deref (tt_ord s) (nl_begin (tt_ord s));
+      do e <- vget "m_elements[]" (tt_elems s) d;
+      if (te_expire e <=? now)%Z then (do s1 <- g_do_erase s d; Ok (true, (s1, S n))) else Ok (false, (s, n))
+    else Ok (false, (s, n)).
 
   Lemma g_clean_loop now C B :
-    (forall (s : ttll K V) (n : nat), C (s, n) = Ok (0 <? tt_used s)) ->
-    (forall (s : ttll K V) (n : nat), req (B (s, n)) (clean_body now s n)) ->
+    (forall (s : ttll K V) (n : nat), req (turn C B (s, n)) (clean_turn now s n)) ->
     forall f s n, req (whileB f C B (s, n)) (tt_clean_loop true f s now n).
   Proof.
-    intros HC HB. induction f as [|f IH]; intros s n; cbn [whileB tt_clean_loop]; [simpl; auto|].
-    rewrite HC. cbn [bind]. destruct (0 <? tt_used s); [|simpl; auto].
-    pose proof (HB s n) as Hb. unfold clean_body in Hb. rewrite nl_deref_begin in Hb.
-    destruct (tt_ord s) as [|[z idx] r]; cbn [bind] in Hb.
-    { destruct (B (s, n)); simpl in Hb; [contradiction|simpl; auto]. }
-    unfold vref, vget in *.
+    intros HT. induction f as [|f IH]; intros s n; [simpl; auto|]. rewrite whileB_turn. cbn [tt_clean_loop].
+    pose proof (HT s n) as Ht. unfold clean_turn in Ht. rewrite nl_deref_begin in Ht.
+    destruct (0 <? tt_used s).
+    2:{ apply req_ok in Ht. rewrite Ht. cbn [bind]. simpl. auto. }
+    destruct (tt_ord s) as [|[z idx] r]; cbn [bind] in Ht.
+    { destruct (turn C B (s, n)); simpl in Ht; [contradiction|simpl; auto]. }
+    unfold vget in *.
     destruct (nth_error (tt_elems s) idx) as [e|] eqn:Nx; cbn [bind] in *.
-    2:{ destruct (B (s, n)); simpl in Hb; [contradiction|simpl; auto]. }
-    rewrite Nx in Hb. cbn [bind] in Hb.
+    2:{ destruct (turn C B (s, n)); simpl in Ht; [contradiction|simpl; auto]. }
     destruct (te_expire e <=? now)%Z.
-    2:{ destruct (B (s, n)) as [[go [s1 n1]]|]; simpl in Hb; [|contradiction]. inversion Hb; subst. simpl. auto. }
+    2:{ apply req_ok in Ht. rewrite Ht. cbn [bind]. simpl. auto. }
     callee (g_do_erase_ok s idx).
     destruct (g_do_erase s idx) as [s1|], (tt_do_erase s idx) as [s2|]; cbn [bind] in *; intros P; try contradiction.
-    - subst s2. destruct (B (s, n)) as [[go [s3 n3]]|]; simpl in Hb; [|contradiction]. inversion Hb; subst. cbn [bind]. apply IH.
-    - destruct (B (s, n)); simpl in Hb; [contradiction|simpl; auto].
+    - subst s2. apply req_ok in Ht. rewrite Ht. cbn [bind]. apply IH.
+    - destruct (turn C B (s, n)); simpl in Ht; [contradiction|simpl; auto].
   Qed.
 
   Lemma g_clean_ok now (s : ttll K V) : req (g_clean_expired_values now s) (tt_clean true s now).
   Proof.
     unfold g_clean_expired_values, tt_clean. cbv zeta.
     match goal with |- req (bind (whileB ?f ?C ?B _) _) _ =>
-      assert (HC : forall (s0 : ttll K V) (n0 : nat), C (s0, n0) = Ok (0 <? tt_used s0))
-        by (intros; cbv beta iota; f_equal; beq);
-      assert (HB : forall (s0 : ttll K V) (n0 : nat), req (B (s0, n0)) (clean_body now s0 n0));
-      [ | pose proof (g_clean_loop now C B HC HB f s 0) as G; clear HC HB ] end.
-    { clear. intros s0 n0. cbv beta iota zeta. unfold clean_body. rewrite !nl_deref_begin.
+      assert (HT : forall (s0 : ttll K V) (n0 : nat), req (turn C B (s0, n0)) (clean_turn now s0 n0));
+      [ | pose proof (g_clean_loop now C B HT f s 0) as G; clear HT ] end.
+    { clear. intros s0 n0. unfold turn, clean_turn. cbv beta iota zeta. rewrite !nl_deref_begin.
+      natcases; cbn [bind]; try apply req_refl.
       destruct (tt_ord s0) as [|[z idx] r]; cbn [bind]; [simpl; auto|]. unfold vref, vget.
       destruct (nth_error (tt_elems s0) idx) as [e|] eqn:Nx; cbn [bind]; [|simpl; auto]. rewrite ?Nx. cbn [bind].
-      zcases; first [ apply req_refl | destruct (g_do_erase s0 idx); simpl; repeat f_equal; lia ]. }
+      zcases; cbn [bind]; rewrite ?Nx; cbn [bind];
+        first [ apply req_refl | destruct (g_do_erase s0 idx); simpl; repeat f_equal; lia ]. }
     revert G. destruct (whileB _ _ _ _) as [[s' n']|]; cbn [bind]; auto.
   Qed.
 
@@ -810,8 +812,30 @@ Section UtlruBridge.
 
   (* ---- the constructor, translated (member initialisers + body): it builds the literal machine's initial state,
      so the whole-history theorem starts from what the source constructs ---- *)
+  (* the loops a constructor may number the nodes of m_lru_list with, whatever their text: a fold over n nodes (or over
+     0 .. n-1) one turn of which writes / appends the counter and increments it, resp. appends the loop index *)
+  Lemma ctor_fill_counter (F : list nat * nat -> nat -> list nat * nat) :
+    (forall l i x, F (l, i) x = (l ++ [i], S i)) ->
+    forall (d : list nat) l i, fold_left F d (l, i) = (l ++ seq i (List.length d), i + List.length d).
+  Proof.
+    intros HF. induction d as [|x d IH]; intros l i; cbn [fold_left List.length seq].
+    - rewrite app_nil_r, Nat.add_0_r. reflexivity.
+    - rewrite HF, IH. rewrite <- app_assoc. cbn [app]. f_equal. lia.
+  Qed.
+  Lemma ctor_fill_index (F : list nat -> nat -> list nat) :
+    (forall l i, F l i = l ++ [i]) -> forall (d : list nat) l, fold_left F d l = l ++ d.
+  Proof.
+    intros HF. induction d as [|x d IH]; intros l; cbn [fold_left].
+    - rewrite app_nil_r. reflexivity.
+    - rewrite HF, IH. rewrite <- app_assoc. reflexivity.
+  Qed.
+  Ltac ctor_loops :=
+    repeat match goal with
+           | |- context [fold_left ?F ?d (?l, ?i)] => rewrite (ctor_fill_counter F (fun l0 i0 x0 => eq_refl) d l i), ?seq_length
+           | |- context [fold_left ?F ?d ?l] => rewrite (ctor_fill_index F (fun l0 i0 => eq_refl) d l)
+           end.
   Lemma g_init_ok (ttl : Z) (cap : nat) : (g_init ttl cap : ttll K V) = ttll_init cap ttl.
-  Proof. reflexivity. Qed.
+  Proof. unfold g_init. cbv zeta. ctor_loops. reflexivity. Qed.
   Theorem generated_utlru_constructed_no_UB_on_any_history : forall cap ttl (h : list (ev K V)),
       1 <= cap -> mono_from 0 h ->
       exists l', run_res g_step (g_init ttl cap) h = Ok (l', snd (run tl_step (tl_init true cap ttl) h)) /\
